@@ -12,7 +12,9 @@ import (
 // keeping its distance.
 func VerifC12_Random() {
 	verifExpect("roundtrip")
-	const h0 = int64(40)
+	// the export is taken at height h0+1: an ordinary height - or the chain's very first block (h0 = 0: every
+	// request is made in block 1)
+	h0 := []int64{40, 0}[verifChoice("exportInFirstBlock", 2)]
 	e := newVEnv(types.StoreKey, h0)
 	svc := &vService{}
 	k := keeper.NewKeeper(e.cdc, e.key, e.bank, svc)
@@ -29,10 +31,15 @@ func VerifC12_Random() {
 		all = append(all, pend{height + int64(interval), req})
 	}
 	i1 := uint64(1 + verifChoice("interval1", 3))
-	add(h0, alice, i1, "tx-a")
-	add(h0, bob, i1, "tx-b") // same block, same interval: due at the same height as alice's
+	first := h0
+	third := alice
+	if h0 == 0 {
+		first, third = 1, vAddr(3) // (one request per requester and block: ids are derived from both)
+	}
+	add(first, alice, i1, "tx-a")
+	add(first, bob, i1, "tx-b") // same block, same interval: due at the same height as alice's
 	if verifChoice("third", 2) == 1 {
-		add(h0+1, alice, uint64(verifChoice("interval3", 3)), "tx-c") // may or may not coincide with the first two
+		add(h0+1, third, uint64(verifChoice("interval3", 3)), "tx-c") // may or may not coincide with the first two
 	}
 	now := e.ctx.WithBlockHeight(h0 + 1)
 	prep := verifChoice("prepareForZeroHeight", 2) == 1
